@@ -105,6 +105,20 @@ CLAIMED = {
   note='Trusted: Lean kernel; standard axioms; for FLAC the block-level model (a block is (code, payload as written by its write())) tied to the code by the walker oracle on real output; for the other formats the independent Python walkers in harness/walkers.py (written from the format specifications) are the oracle and nothing is proved yet.',
   technique='Lean 4 proof (arithmetic of the generated policy; FLAC layout-level save) + padding measurement on real files',
   ref='DESIGN.md §5 C09'),
+ "C19": dict(
+  text="Lean 4 theorems (Props/C19.lean) in environments with an arbitrary device capacity and an arbitrary leak of the failing write: "
+       "resize_rollback - growing the file either succeeds or raises ENOSPC with the file byte-identical (whichever byte of the enlargement the "
+       "device fills up at, every buffer size); insert_bytes_atomic and resize_bytes_atomic - the primitives under every saver complete or leave "
+       "the file untouched (growth precedes the move; moves and shrinks only write inside the file and never hit the limit); flac_save_enlarge_first "
+       "- FLAC._save as a FileM program completes with the rendering of the saved layout or raises with the file unchanged, length included. "
+       "Partial: the other savers' effect order (ID3, MP4, ASF, Ogg, IFF) is not modelled; for them save() is run on a capacity-limited file "
+       "object for every remaining capacity 0..growth (exception class, byte identity for enlarge-first formats, payload intact for append/create "
+       "formats).",
+  note="Trusted: Lean kernel; standard axioms; the FS/Env capacity semantics (a write that would grow the file beyond the capacity raises ENOSPC "
+       "after `leak` bytes reached the file) as a model of a full device - real devices (buffering, copy-on-write, failing in-place writes) are "
+       "not modelled; fobj.FaultFile implements the same semantics for the real code.",
+  technique="Lean 4 proof (FileM programs under a capacity environment; rollback and enlarge-first theorems) + capacity sweep on the real savers",
+  ref="DESIGN.md §5 C19"),
 }
 
 PENDING_REASON = "not claimed yet in this revision: the Lean model and theorems for this property are still being built (see DESIGN.md §7 build order); it is not 'not applicable' in principle"
